@@ -34,10 +34,12 @@ META = dict(
          "packrat_lr_exclusive + packrat_lr_never_both + parse_selector_follows_packrat (each setter refuses while the "
          "other mode is on unless force=True; never both on, and _parse is the caching function exactly while packrat is "
          "on, after any history), enablePackrat_idempotent/_twice, users_untouched (no setting change and no context "
-         "entry/exit touches an existing user expression). PARTIAL: default_ws_scope_partial speaks about the "
-         "whiteChars/copyDefaultWhiteChars attributes (new expressions, copies, composites over existing expressions, "
-         "built-ins, existing user expressions); that these attributes decide what an expression skips is checked on the "
-         "real parser by the oracle only. live_builtins_restored_though_unsynced: the pristine built-in line_start (own "
+         "entry/exit touches an existing user expression). PARTIAL: default_ws_scope_partial and forward_ws_scope_partial speak about "
+         "the whiteChars/copyDefaultWhiteChars attributes (new expressions incl. MatchFirst/Or and Forward(), copies, "
+         "And/Group/Opt/... composites over existing expressions, `fwd <<= e` taking over e's set AND flag so that later "
+         "copies of the Forward follow the default, copies of unassigned Forwards, built-ins, existing user "
+         "expressions); that these attributes decide what an expression skips is checked on the real parser by the "
+         "oracle only (every parsable user expression at the end of every history, and the ws-behaviour battery). live_builtins_restored_though_unsynced: the pristine built-in line_start (own "
          "set differs from the default) is changed inside and restored on exit (finding fixed by /repo e056afa). "
          "Cache/memo contents are not settings and are not modelled.",
     note="Trusted: Lean kernel; axioms propext/Classical.choice/Quot.sound; the Settings transcription (tied to /repo by "
@@ -65,6 +67,7 @@ THEOREMS = [NS + t for t in (
     "users_untouched",
     "new_expr_after_exit",
     "default_ws_scope_partial",
+    "forward_ws_scope_partial",
 )]
 
 GEN_REL = "PPProofs/Props/Gen/Settings.lean"
@@ -461,6 +464,7 @@ def _behaviour(W):
             if not parsable(e, frozenset()):
                 out.append(None)
                 continue
+            e.streamline()  # what parse_string does first; it may flatten nested Or/MatchFirst/And
             want = sorted(eff(e) & set(PROBE_CHARS))
             got = []
             for ch in PROBE_CHARS:
@@ -699,6 +703,12 @@ def _skips(expr, body):
     return out
 
 
+def _assigned_forward(pp, e):
+    f = pp.Forward()
+    f <<= e
+    return f
+
+
 def ws_behaviour_case(chars, in_context):
     """build expressions before / after set_default_whitespace_chars(chars) (optionally inside a context that is
     then left) and observe, by parsing, which probe characters each one skips. Returns list of problems."""
@@ -710,7 +720,11 @@ def ws_behaviour_case(chars, in_context):
         orig = W.pristine["ws"]
         mk = [("Word", lambda: pp.Word("ab"), "ab"), ("Literal", lambda: pp.Literal("ab"), "ab"),
               ("And", lambda: pp.Literal("a") + pp.Literal("b"), "ab"),
-              ("Group", lambda: pp.Group(pp.Word("ab")), "ab")]
+              ("Group", lambda: pp.Group(pp.Word("ab")), "ab"),
+              ("Forward", lambda: _assigned_forward(pp, pp.Word("ab")), "ab"),
+              ("Forward<<=And", lambda: _assigned_forward(pp, pp.Literal("a") + pp.Literal("b")), "ab"),
+              ("Group(Forward)", lambda: pp.Group(_assigned_forward(pp, pp.Word("ab"))), "ab"),
+              ("Suppress(Forward)+Empty", lambda: pp.Suppress(_assigned_forward(pp, pp.Literal("ab"))) + pp.Empty(), "ab")]
         pre = [(n, f(), body) for n, f, body in mk]
         own = pp.Word("ab").set_whitespace_chars("-")
         builtin = [("common.integer", pp.common.integer, "12"), ("quoted_string", pp.quoted_string, '"q"')]
@@ -731,6 +745,7 @@ def ws_behaviour_case(chars, in_context):
         for n, e, body in pre:
             expect("pre-existing " + n, e, body, before, "existing-user-expression-changed")
             expect("copy of pre-existing " + n, e.copy(), body, inside, "copy-does-not-follow-default")
+            expect("pre-existing " + n + "('name')", e("name"), body, inside, "copy-does-not-follow-default")
         for n, e, body in pre[:2]:
             expect("new composite over pre-existing " + n, pp.Group(e), body, before, "composite-does-not-inherit-whitespace")
         expect("pre-existing with own whitespace", own, "ab", {"-"}, "existing-user-expression-changed")
